@@ -79,7 +79,8 @@ Proof. intros H1 H2 w Hw. apply locked_call_free; assumption. Qed.
 Lemma returns_free_mmap {A B} (f : A -> B) (m : M wrapper A) : returns_free m -> returns_free (mmap f m).
 Proof.
   intros H w Hw. specialize (H w Hw). unfold mmap. destruct (m w) as [w' o]. cbn in *.
-  destruct H as [H1 H2]. destruct o; cbn; split; auto; try discriminate.
+  destruct H as [H1 H2]. destruct o; cbn; split; try discriminate; try (intros _; apply H2; discriminate);
+    try (intros Hc; exfalso; apply Hc; reflexivity); try (exfalso; apply H1; reflexivity).
 Qed.
 
 (* the repaired inner InSubtree goes to the array directly *)
